@@ -24,6 +24,7 @@
 #include <csignal>
 #include <unistd.h>
 #include <sys/wait.h>
+#include <execinfo.h>
 using namespace photon;
 
 struct Rec { int kind; int t; long a; long b; };
@@ -56,7 +57,7 @@ static void dump_log() {
         } }
 }
 static void on_alarm(int) { dump_log(); printf("stalled hard limit: the program did not finish within 120 s of real time\nresult hung\n"); fflush(stdout); _exit(0); }
-static void on_segv(int sig) { dump_log(); printf("result crashed signal=%d\n", sig); fflush(stdout); _exit(0); }
+static void on_segv(int sig) { void* bt[40]; int n = backtrace(bt, 40); dump_log(); printf("segv backtrace:\n"); fflush(stdout); backtrace_symbols_fd(bt, n, 1); printf("result crashed signal=%d\n", sig); fflush(stdout); _exit(0); }
 
 static ObjectCache<int, Obj*>* oc;
 static int nkeys = 2, slowpct = 30, recpct = 10, failpct = 10;
@@ -112,6 +113,7 @@ static int run_program(const std::vector<std::string>& lines) {
         long p = progress.load();
         if (p == last) stalled++; else stalled = 0;
         last = p;
+        if (stalled >= 30 && getenv("MV_PAUSE_ON_STALL")) { fprintf(stderr, "STALLED pid=%d\n", getpid()); alarm(0); for (;;) ::pause(); }
         if (stalled >= 30) { dump_log(); printf("stalled finished=%d of %d progress=%ld\nresult hung\n", finished_threads.load(), total, p); fflush(stdout); _exit(0); }
     }
     for (auto& t : os) t.join();
